@@ -388,6 +388,158 @@ func runC12(w *World, r *Report) {
 	}
 
 	r.Unit("lock_sites", nLocks)
+
+	// ------------------------------------------------------------ R-C12-3
+	// No method is called with a mutex of its receiver held that the method itself takes
+	// (sync.Mutex and sync.RWMutex are not re-entrant): the seeded case is a trace message
+	// built inside a locked region by a String() method that read-locks the same mutex.
+	r.Rule("R-C12-3", "no re-entrant locking: in packages bytecode, data and debugger no method that locks a mutex of its receiver (directly or through other methods of the receiver) is called while the caller holds that mutex of the same value", 20)
+
+	dpk := w.pkg("internal/language/data")
+	if dpk == nil {
+		r.Anchor("R-C12-3", "package language/data")
+
+		return
+	}
+
+	var scope []*ssa.Function
+
+	scope = append(scope, fns...)
+	scope = append(scope, w.srcFuncs(dp)...)
+	scope = append(scope, w.srcFuncs(dpk)...)
+
+	// acquires[m] = names of the receiver's mutex fields m locks
+	acquires := map[*ssa.Function]map[string]string{}
+
+	recvOf := func(fn *ssa.Function) ssa.Value {
+		if fn.Signature.Recv() == nil || len(fn.Params) == 0 {
+			return nil
+		}
+
+		return fn.Params[0]
+	}
+
+	for _, fn := range scope {
+		rv := recvOf(fn)
+		if rv == nil {
+			continue
+		}
+
+		allInstrs(fn, func(in ssa.Instruction) {
+			ci, ok := in.(*ssa.Call) // deferred unlocks are not acquisitions; a deferred Lock does not occur
+			if !ok {
+				return
+			}
+
+			op, ok := mutexOp(ci.Common())
+			if !ok || (op.kind != "Lock" && op.kind != "RLock") {
+				return
+			}
+
+			// the mutex is a field of the receiver
+			var fa *ssa.FieldAddr
+
+			switch x := ci.Call.Args[0].(type) {
+			case *ssa.FieldAddr:
+				fa = x
+			case *ssa.UnOp:
+				fa, _ = x.X.(*ssa.FieldAddr)
+			}
+
+			if fa == nil || fa.X != rv {
+				return
+			}
+
+			if acquires[fn] == nil {
+				acquires[fn] = map[string]string{}
+			}
+
+			acquires[fn][fieldName(fa.X.Type(), fa.Field)] = op.kind
+		})
+	}
+
+	for changed := true; changed; {
+		changed = false
+
+		for _, fn := range scope {
+			rv := recvOf(fn)
+			if rv == nil {
+				continue
+			}
+
+			allInstrs(fn, func(in ssa.Instruction) {
+				ci, ok := in.(*ssa.Call)
+				if !ok {
+					return
+				}
+
+				cf := calleeFunction(ci.Common())
+				if cf == nil || len(acquires[cf]) == 0 || len(ci.Call.Args) == 0 || ci.Call.Args[0] != rv {
+					return
+				}
+
+				for f, k := range acquires[cf] {
+					if acquires[fn] == nil {
+						acquires[fn] = map[string]string{}
+					}
+
+					if _, have := acquires[fn][f]; !have {
+						acquires[fn][f] = k
+						changed = true
+					}
+				}
+			})
+		}
+	}
+
+	nCalls := 0
+
+	for _, fn := range scope {
+		ls := computeLocksets(fn, nil, nil)
+		count := map[string]int{}
+
+		allInstrs(fn, func(in ssa.Instruction) {
+			ci, ok := in.(*ssa.Call)
+			if !ok {
+				return
+			}
+
+			cf := calleeFunction(ci.Common())
+			if cf == nil || len(acquires[cf]) == 0 || len(ci.Call.Args) == 0 {
+				return
+			}
+
+			nCalls++
+
+			base := lockPath(ci.Call.Args[0])
+			held := ls.heldAt(in)
+
+			key := fnKey(fn) + "|calls " + fnKey(cf) + " without holding its lock"
+			count[key]++
+
+			if n := count[key]; n > 1 {
+				key += "#" + sprintInt(n)
+			}
+
+			bad := ""
+
+			for f, want := range acquires[cf] {
+				if mode, ok := held[base+"."+f]; ok {
+					if want == "Lock" || mode == 'W' {
+						bad = base + "." + f
+					}
+				}
+			}
+
+			if bad != "" {
+				r.Violate("R-C12-3", key, w.pos(in.Pos()), fnKey(cf)+" locks "+bad+", which the caller already holds here: the goroutine blocks on its own lock (with the seeded form, only when the trace logger is active)")
+			} else {
+				r.Discharge("R-C12-3", key, w.pos(in.Pos()), "")
+			}
+		})
+	}
+
+	r.Unit("calls_to_locking_methods", nCalls)
 }
 
 // c12LockOK: locks that are intentionally handed to the caller (named, with reason).
